@@ -407,11 +407,13 @@ def run_episode(env, cfg):
     if cfg.get("stray"):
         # an unrelated / stale packet arriving at any time in any state
         ts = env.real("t_stray", 0, cfg.get("stray"))
-        what = env.choice("stray_kind", ["old-echo", "old-reply", "other"])
+        what = env.choice("stray_kind", ["old-echo", "old-reply", "other", "bad-idx"])
         fr = {"old-echo": f"RQ --- {HGI} {CTL} --:------ 30C9 001 00", "old-reply": f"RP --- {CTL} {HGI} --:------ 30C9 003 0007D0",
-              "other": f" I --- {CTL} --:------ {CTL} 1F09 003 FF0514"}[what]
+              "other": f" I --- {CTL} --:------ {CTL} 1F09 003 FF0514",
+              # structurally valid, but its index is a domain id the code does not take: no header can be computed for it
+              "bad-idx": f" I --- {CTL} --:------ {CTL} 30C9 003 FC07D0"}[what]
         sp = ether._pkt(fr)
-        ether.owner[id(sp)] = (0 if what != "other" else None, "stray-" + what)
+        ether.owner[id(sp)] = (0 if what in ("old-echo", "old-reply") else None, "stray-" + what)
         loop.call_later(ts, ether._deliver, sp)
 
     # phase 1: until every caller is answered (or nothing is left to run)
